@@ -226,6 +226,41 @@ def scenarios(run, drv, scratch):
     model = parse_sx(drv.ask("(c06.run (ctor () ((nt 100 0)) false) (ctor ((inner 0)) ((z 101 0)) true) (read 1 0 1 0) (read 0 0 0 0) (rebind 0 nt 200) (read 1 0 1 0) (read 0 0 0 0))"))
     run.corr("scenario", "rebind-erases-up", ["miss", "miss", "miss", "miss"], [model[2][0], model[3][0], model[5][0], model[6][0]])
 
+    # (c2) a SECOND indexed write into a non-tensor entry that is a stack already (the first one rebinds NonTensorData -> NonTensorStack):
+    #      `_set_at_str` re-binds the entry only when `maybe_to_stack()` hands back a new object, and that re-bind is the only `_erase_cache_up()`
+    inner = T({"nt": NonTensorData("same", batch_size=[2]), "a": torch.zeros(2)})
+    td = T({"sub": inner, "z": torch.zeros(2)}).lock_()
+    td[1] = TensorDict({"sub": {"nt": "one"}, "z": torch.ones(())}, [])
+    nt_reads = lambda: [(t.detach(), t._values_list(True, False), t._items_list(True, False), t.flatten_keys(), t._values_list(True, True)) for t in (td, inner)]
+    nt_reads()
+    td[0] = TensorDict({"sub": {"nt": "two"}, "z": torch.ones(())}, [])
+    check("scenario", "td.lock_(); td[1] = {'sub': {'nt': 'one'}}; td.detach(); td[0] = {'sub': {'nt': 'two'}}; td.detach()['sub', 'nt'].tolist()   (second indexed write: the entry is a stack already)",
+          "second-nontensor-index-write", nt_reads)
+    inner.set_at_("nt", NonTensorData("three"), 1)
+    check("scenario", "… ; td['sub'].set_at_('nt', NonTensorData('three'), 1); td.detach()['sub', 'nt'].tolist()", "second-nontensor-index-write:set_at_", nt_reads)
+    tw = T({"sub": T({"nt": NonTensorData("same", batch_size=[2]), "a": torch.zeros(2)}), "z": torch.zeros(2)})
+    tw[1] = TensorDict({"sub": {"nt": "one"}, "z": torch.ones(())}, []); tw[0] = TensorDict({"sub": {"nt": "two"}, "z": torch.ones(())}, []); tw.get("sub").set_at_("nt", NonTensorData("three"), 1)
+    a, b = td.detach().get(("sub", "nt")).tolist(), tw.detach().get(("sub", "nt")).tolist()
+    if a != b:
+        run.oracle_fail("scenario", {"program": "the same three indexed non-tensor writes on a locked tensordict and on an unlocked twin; detach()['sub', 'nt'].tolist()"},
+                        f"locked={a} twin={b}", "second-nontensor-index-write:twin")
+    else:
+        run.oracle_ok("scenario")
+
+    # (c3) KNOWN FINDING: once the tensordict is memory-mapped, an indexed write into a non-tensor entry that is a stack updates the (memory-mapped)
+    #      members in place: no re-bind, no `_erase_cache_up()`; reads that memoised a rebuilt copy of the payloads (detach, unflatten_keys) go stale
+    td = T({"a": torch.zeros(2), "nt": NonTensorData("v", batch_size=[2])}).lock_()
+    td[0] = TensorDict({"nt": "w1"}, [])
+    td.memmap_(str(scratch / "mm_nt"), copy_existing=True)
+    mm_nt_reads = lambda: (td.detach(), td.unflatten_keys(), td._values_list(True, False), td.flatten_keys())
+    mm_nt_reads()
+    try:
+        td[0] = TensorDict({"nt": "w2"}, [])
+    except Exception as e:  # noqa
+        run.notes.append(f"scenario memmap-nontensor-inplace: the write was refused: {type(e).__name__}")
+    check("scenario", "td.lock_(); td[0] = {'nt': 'w1'}; td.memmap_(dir, copy_existing=True); td.detach(); td[0] = {'nt': 'w2'}; td.detach()['nt'].tolist()",
+          "memmap-nontensor-inplace", mm_nt_reads)
+
     # (d) memmap_ of a (nested node of a) locked tensordict
     td = T({"a": torch.zeros(2), "b": T({"c": torch.zeros(2)})}).lock_()
     for t in (td, td["b"]):
